@@ -579,6 +579,14 @@ func (o *objectGoReflect) setReflectValue(v reflect.Value) {
 	o.fieldsValue = v
 	o.origValue = v
 	o.methodsValue = v.Addr()
+	// references to nested values handed out earlier are part of the value that moves
+	for name, w := range o.valueCache {
+		if fv := o._getField(name); fv.IsValid() {
+			w.setReflectValue(fv)
+		} else {
+			delete(o.valueCache, name)
+		}
+	}
 }
 
 func (o *objectGoReflect) esValue() Value {
